@@ -2606,4 +2606,100 @@ theorem accepts_iff_11 (s : Text) :
       simp only [Res.bind_ok, e0, e3, parseNumeric, Res.guard, mdall, d2, if_true, Res.ofOption, hpd, Res.pure_eq]
       rfl
 
+
+/-- 11R / 11S `3!n6!n[4!n][6!n]`: message type, calendar date, then nothing, a session number, an input sequence number or both -/
+theorem accepts_iff_11RS (s : Text) :
+    (F11RS.parse s).isOk = true ↔
+      ∃ mt date rest, s = mt ++ date ++ rest ∧ Doc.Digits 3 mt ∧ Doc.Date date ∧ (∀ c ∈ rest, c.isDigit = true) ∧
+        (rest.length = 0 ∨ rest.length = 4 ∨ rest.length = 6 ∨ rest.length = 10) := by
+  constructor
+  · intro h
+    cases hp : F11RS.parse s with
+    | err => rw [hp] at h; simp [Res.isOk] at h
+    | panic => rw [hp] at h; simp [Res.isOk] at h
+    | ok v =>
+      unfold F11RS.parse at hp
+      split at hp; · cases hp
+      rename_i hasc
+      split at hp; · cases hp
+      rename_i hlen
+      have ha : isAsciiT s = true := by simpa using hasc
+      have hl : 3 ≤ s.length := by
+        have : ¬ blen s < 3 := by simpa using hlen
+        rw [blen_ascii s ha] at this; omega
+      rw [bto_ascii s 3 ha hl, bfrom_ascii s 3 ha hl] at hp
+      simp only [Res.bind_ok] at hp
+      obtain ⟨_, hmt, hp⟩ := bind_ok_inv hp
+      have ha3 := isAsciiT_drop s 3 ha
+      split at hp; · cases hp
+      rename_i hlen2
+      have hl2 : 6 ≤ (s.drop 3).length := by
+        have : ¬ blen (s.drop 3) < 6 := by simpa using hlen2
+        rw [blen_ascii _ ha3] at this; omega
+      rw [bto_ascii _ 6 ha3 hl2, bfrom_ascii _ 6 ha3 hl2] at hp
+      simp only [Res.bind_ok] at hp
+      obtain ⟨_, _, hp⟩ := bind_ok_inv hp
+      obtain ⟨date, hd, hp⟩ := bind_ok_inv hp
+      split at hp; · cases hp
+      rename_i hrest
+      have ha9 := isAsciiT_drop _ 6 ha3
+      have hb9 := blen_ascii _ ha9
+      have hmt' : (s.take 3).all Char.isDigit = true := by unfold parseNumeric at hmt; exact guard_ok hmt
+      have hrest' : ((s.drop 3).drop 6).all Char.isDigit = true := by simpa using hrest
+      have hlenopt : ((s.drop 3).drop 6).length = 0 ∨ ((s.drop 3).drop 6).length = 4 ∨ ((s.drop 3).drop 6).length = 6 ∨ ((s.drop 3).drop 6).length = 10 := by
+        rw [hb9] at hp
+        split at hp
+        · rename_i h0; exact Or.inl h0
+        · rename_i h4; exact Or.inr (Or.inl h4)
+        · rename_i h6; exact Or.inr (Or.inr (Or.inl h6))
+        · rename_i h10; exact Or.inr (Or.inr (Or.inr h10))
+        · cases hp
+      refine ⟨s.take 3, (s.drop 3).take 6, (s.drop 3).drop 6, ?_, ⟨by simp; omega, fun c hc => List.all_eq_true.mp hmt' c hc⟩, ?_,
+        fun c hc => List.all_eq_true.mp hrest' c hc, hlenopt⟩
+      · rw [List.append_assoc, List.take_append_drop, List.take_append_drop]
+      · unfold Doc.Date; rw [ofOption_ok hd]; rfl
+  · rintro ⟨mt, date, rest, rfl, ⟨m3, md⟩, hd, rd, rl⟩
+    obtain ⟨d1, d2⟩ := date_shape date hd
+    have mdall : mt.all Char.isDigit = true := List.all_eq_true.mpr md
+    have rdall : rest.all Char.isDigit = true := List.all_eq_true.mpr rd
+    have masc := all_digit_ascii mt mdall
+    have dasc := all_digit_ascii date d2
+    have rasc := all_digit_ascii rest rdall
+    have hall : isAsciiT (mt ++ date ++ rest) = true := by
+      unfold isAsciiT at *; simp only [List.all_append, masc, dasc, rasc, Bool.and_true]
+    have hlen : (mt ++ date ++ rest).length = 9 + rest.length := by simp [m3, d1]; omega
+    have hb : blen (mt ++ date ++ rest) = 9 + rest.length := by rw [blen_ascii _ hall]; exact hlen
+    have e0 : (mt ++ date ++ rest).take 3 = mt := by
+      rw [List.append_assoc, List.take_append_of_le_length (by omega)]; exact List.take_of_length_le (by omega)
+    have e3 : (mt ++ date ++ rest).drop 3 = date ++ rest := by
+      rw [List.append_assoc, List.drop_append_of_le_length (by omega), List.drop_of_length_le (by omega), List.nil_append]
+    have e36 : (date ++ rest).take 6 = date := by
+      rw [List.take_append_of_le_length (by omega)]; exact List.take_of_length_le (by omega)
+    have e39 : (date ++ rest).drop 6 = rest := by
+      rw [List.drop_append_of_le_length (by omega), List.drop_of_length_le (by omega), List.nil_append]
+    have hdr : isAsciiT (date ++ rest) = true := by unfold isAsciiT at *; simp only [List.all_append, dasc, rasc, Bool.and_true]
+    unfold F11RS.parse
+    have h1 : ¬ (9 + rest.length < 3) := by omega
+    simp only [hall, Bool.not_true, Bool.false_eq_true, if_false, hb, h1]
+    rw [bto_ascii _ 3 hall (by omega), bfrom_ascii _ 3 hall (by omega)]
+    simp only [Res.bind_ok, e0, e3]
+    have hb2 : blen (date ++ rest) = 6 + rest.length := by rw [blen_ascii _ hdr]; simp [d1]
+    have h2 : ¬ (6 + rest.length < 6) := by omega
+    rw [bto_ascii _ 6 hdr (by simp [d1]), bfrom_ascii _ 6 hdr (by simp [d1])]
+    unfold Doc.Date at hd
+    cases hpd : parseDateYYMMDD date with
+    | none => simp [hpd] at hd
+    | some dv =>
+      have hrb : blen rest = rest.length := blen_ascii rest rasc
+      simp only [parseNumeric, Res.guard, mdall, if_true, Res.bind_ok, hb2, h2, if_false, e36, e39, d2, Res.ofOption, hpd, rdall,
+        Bool.not_true, Bool.false_eq_true, hrb]
+      rcases rl with r0 | r4 | r6 | r10
+      · rw [r0]; rfl
+      · rw [r4]; rfl
+      · rw [r6]; rfl
+      · rw [r10]
+        have : 4 ≤ rest.length := by omega
+        simp only [bto_ascii rest 4 rasc this, bfrom_ascii rest 4 rasc this, Res.bind_ok, Res.pure_eq]
+        rfl
+
 end SwiftMT.Props.C05
